@@ -41,7 +41,10 @@ LOOP_OK = {
     'builtin::sequence::add_sequence_to_stack::{closure#0}': 'after `len()` returned Some: finite logical length',
     'builtin::sequence::XSequence::quickselect': 'partition loop: [left, right] shrinks by at least one each iteration',
 }
-LOOP_OK['builtin::generators::XGenerator::_iter::{closure#7}'] = 'Repeat: every iteration either returns an element, ends (a pass that yielded nothing), or starts exactly one new pass after a pass that yielded'
+# closures are numbered by position, so an exemption for one of them is keyed by what identifies it: (enclosing function, a callee it must contain)
+LOOP_OK_CLOSURES = {
+    ('builtin::generators::XGenerator::_iter', 'builtin::generators::XGenerator::_iter'): 'Repeat (the closure that restarts the inner generator): every iteration either returns an element, ends (a pass that yielded nothing), or starts exactly one new pass after a pass that yielded',
+}
 KNOWN_HEAVY = {
     'builtin::int::add_int_combination::{closure#0}': 'while k > 0: k or the remaining range shrinks every step (bounded by n)',
     'builtin::int::add_int_combination_with_replacement::{closure#0}': 'while k > 0: bounded by n + k',
@@ -154,6 +157,14 @@ def run(ctx):
                 cls = 'L'
                 nL += 1
                 r1.exempted(b.nid, LOOP_OK.get(b.nid) or KNOWN_HEAVY.get(b.nid))
+            if cls is None and b.kind == 'closure':
+                encl = b.nid.split('::{closure')[0]
+                callees = {strip_generics(tm2.get('callee') or '') for _, tm2 in b.calls()}
+                for (e0, must), why in LOOP_OK_CLOSURES.items():
+                    if e0 == encl and must in callees:
+                        cls = 'L'
+                        nL += 1
+                        r1.exempted('%s::{closure calling %s}' % (encl, must.split('::')[-1]), why)
             r1.inst({'body': b.id, 'loop_header': mirq.site(b, h), 'class': cls or 'unclassified'}, ok=cls is not None, kind=(b.id, h))
             if cls is None:
                 bad.append(h)
